@@ -21,7 +21,7 @@ class Profile:
     def __init__(self, **kw):
         # statement weights
         self.w = dict(var=10, assign=6, print=10, if_=5, while_=3, for_=4, block=2, fn=4, call=4, lam=3, try_=0,
-                      cls=0, fiber=0, map_=0, strop=0, brk=1, cont=1, ret=2, throw=0, itchain=0, imp=0, opassign=3, chain=0, tryfn=0, scope=0,
+                      cls=0, fiber=0, map_=0, strop=0, brk=1, cont=1, ret=2, throw=0, itchain=0, imp=0, opassign=3, chain=0, tryfn=0, scope=0, clsmisc=0,
                       field=0, setitem=2)
         self.illtyped = 0          # percent of operand slots filled with a value of a random kind
         self.probe = 20            # percent of leaves wrapped in t(k, v) probes
@@ -628,6 +628,10 @@ class Gen:
     def s_cls(self, depth):
         from . import feat_cls
         return feat_cls.s_cls(self, depth)
+
+    def s_clsmisc(self, depth):
+        from . import feat_cls
+        return feat_cls.s_clsmisc(self, depth)
 
     def s_field(self, depth):
         from . import feat_cls
